@@ -73,9 +73,8 @@ def resDump (v : VT) (bil : Bool) (w h dw dh : Int) (m : List Int) : String :=
     " ".intercalate (rows.map (" ".intercalate ·))
   | _ => "bad-op"
 
-/-- dst dump of resize_view, with the code's double arithmetic -/
-def rszDump (v : VT) (bil : Bool) (w h dw dh : Int) : String :=
-  let m := M32.resize (Float.ofInt w) (Float.ofInt h) (Float.ofInt dw) (Float.ofInt dh) (Float.sin (-0.0))
+/-- dst dump of resample_pixels with a matrix3x2<double>, with the code's double arithmetic -/
+def resFDump (v : VT) (bil : Bool) (w h dw dh : Int) (m : M32 Float) : String :=
   let rows := resample (P := String) (K := Float)
     (fun p =>
       if bil then ((chans v).mapM (fun c => (bilinearF w h (v.src c) p.1 p.2).map (castF v))).map joinC
@@ -83,6 +82,10 @@ def rszDump (v : VT) (bil : Bool) (w h dw dh : Int) : String :=
     (fun xy => m.apply (Float.ofInt xy.1, Float.ofInt xy.2))
     (fun _ _ => joinC ((chans v).map (fun _ => showSrc v v.sentinel))) dw.toNat dh.toNat
   " ".intercalate (rows.map (" ".intercalate ·))
+
+/-- dst dump of resize_view -/
+def rszDump (v : VT) (bil : Bool) (w h dw dh : Int) : String :=
+  resFDump v bil w h dw dh (M32.resize (Float.ofInt w) (Float.ofInt h) (Float.ofInt dw) (Float.ofInt dh) (Float.sin (-0.0)))
 
 def model (line : String) : String :=
   match words line with
@@ -103,6 +106,13 @@ def model (line : String) : String :=
     match VT.parse vt, ints [w, h, dw, dh] with
     | some v, some [w, h, dw, dh] => rszDump v (s == "b") w h dw dh
     | _, _ => "bad-op"
+  | ["resf", vt, s, w, h, dw, dh, a, b, c, d, e, f] =>
+    match VT.parse vt, ints [w, h, dw, dh], [a, b, c, d, e, f].mapM fOfBits with
+    | some v, some [w, h, dw, dh], some fs =>
+      match mOf fs with
+      | some m => let x := resFDump v (s == "b") w h dw dh m; x ++ " | " ++ x
+      | none => "bad-op"
+    | _, _, _ => "bad-op"
   | "mmul" :: rest =>
     match rest.mapM fOfBits with
     | some fs => match mOf (fs.take 6), mOf (fs.drop 6) with
@@ -227,6 +237,23 @@ def judge (op obs : String) : String :=
             -- an untouched destination pixel means the sampler said "outside" for its source point
             if t == sent ∧ ¬ inDomain w h nx ny 8 then none else judgePoint v w h nx ny 8 t) with
         | some e => fail e | none => "ok"
+      | _ => fail "shape"
+    | _, _ => fail "bad-op"
+  | ["resf", vt, _, w, h, dw, dh, _, _, _, _, _, _] =>
+    match VT.parse vt, ints [w, h, dw, dh] with
+    | some v, some [w, h, dw, dh] =>
+      match obs.splitOn " | " with
+      | [l, r] =>
+        if words l ≠ words r then fail "resample-loop" else
+        let toks := words l
+        if toks.length ≠ (dw * dh).toNat then fail "shape" else
+        let sent := joinC ((chans v).map (fun _ => showSrc v v.sentinel))
+        let bad := toks.any (fun t => t != sent && match parseC t with
+          | some vs => (chans v).zip vs |>.any (fun (c, x) =>
+              let all := (irange h.toNat).flatMap (fun y => (irange w.toNat).map (fun xx => showSrc v (v.src c xx y)))
+              !(all.any (· ≤ x) && all.any (· ≥ x)))
+          | none => true)
+        if bad then fail "convex" else "ok"
       | _ => fail "shape"
     | _, _ => fail "bad-op"
   | ["rsz", vt, _, w, h, dw, dh] =>
